@@ -11,16 +11,16 @@ def parse(path):
     if not os.path.exists(path):
         return out
     for line in open(path):
-        m = re.match(r"^(C\d\d-\d+) (.*)$", line.strip())
+        m = re.match(r"^(C\d\db?-\d+) (.*)$", line.strip())
         if m:
             out[m.group(1)] = m.group(2)
     return out
 
 confirm = {}
-for f in ("confirm.log", "confirm3.log"):
+for f in ("confirm.log", "confirm3.log", "confirm4.log"):
     confirm.update(parse(os.path.join(SRC, f)))
 evals = {}
-for f in sys.argv[1:] or ["eval.log", "eval3.log"]:
+for f in sys.argv[1:] or ["eval-final.log", "eval4.log"]:
     for k, v in parse(os.path.join(SRC, f)).items():
         evals.setdefault(k, []).append(v)
 
@@ -47,7 +47,7 @@ for sid in sorted(confirm):
     prev.update(detected)
     out = {
         "id": sid,
-        "property": meta.get("property"),
+        "property": (meta.get("property") or "")[:3],
         "summary": meta.get("summary"),
         "needs": meta.get("needs"),
         "files": meta.get("files"),
